@@ -172,4 +172,36 @@ PROPS = {
         trusted_base=COMMON_TRUST + ["harness normal-form reference"],
         assumptions=[],
     ),
+
+    "C09": dict(
+        tables=["print"],
+        determined=True,
+        technique="Lean 4 theorems: canonical member order is the UTF-16 total order, sorted at every depth, members preserved, compact print = reference serializer; the number rendering is an explicit hypothesis tested against an independent ES6/IEEE reference",
+        level_text=("PARTIAL proof. Proved in Lean for all values (model of canonicalize_with after the two fix: commits; the number canonicalizer nc is an opaque parameter): the comparison used to sort members is a total order "
+                    "(total, transitive, antisymmetric — the latter via injectivity of UTF-16 encoding on scalar values) on keys compared as UTF-16 code-unit sequences (C09_total_order, C09_utf16_witness: U+10000 before U+E000); "
+                    "the canonical value has every object sorted by it at every depth (C09_sorted_partial) and each object is a rearrangement of its canonicalized members (C09_members_partial); compact printing of the result is the minimal-escape, no-whitespace reference serializer (C09_print). "
+                    "NOT provable with what is installed: nc = ES6 shortest round-trip rendering of the nearest double (IEEE-754 rounding of arbitrary decimals + shortest-digit generation live in two dependencies and have no formalisation here). "
+                    "It is stated as C09_number_hypothesis and tested on every run: 30k (thorough 200k) number spellings — 18-40 digit decimals, near-halfway spellings, subnormals, the 1e21/1e-6 thresholds, RFC 8785 vectors — "
+                    "against correctly rounded str::parse + an ECMA-262 layout written independently, with exact-tie resolution by integer arithmetic; and whole I-JSON values against an independent JCS serializer."),
+        level_note="Trusted: Lean kernel; model validated by correspondence (numbers through a per-request table produced by the real code); Rust std float parsing/formatting as the number oracle; ryu-js, json-number not modelled.",
+        rule="request = value (+ table spelling->canonical for its numbers); reply = canonical value. Streams: RFC vectors, number spellings, all ordered key pairs over 11 boundary characters, generated I-JSON values (keys across the U+E000..U+FFFF / supplementary region), some non-I-JSON values. Non-trivial = containers; distinct request lines",
+        strength="partial: ordering/structure proved; number rendering assumed and tested",
+        trusted_base=COMMON_TRUST + ["Rust std `str::parse::<f64>` is correctly rounded; `{:e}` prints shortest round-trip digits", "ryu-js / json-number (opaque)"],
+        assumptions=["C09_number_hypothesis: nc n = ES6 rendering of the double nearest to n"],
+    ),
+    "C10": dict(
+        tables=[],
+        determined=True,
+        technique="Lean 4 theorems: canonicalization is idempotent (sorted fixed point), invariant under permutation of members at any depth (unique sorted permutation under a total antisymmetric order), preserves everything but number spellings and member order; number-spelling invariance is a hypothesis tested by exact respellings",
+        level_text=("PARTIAL proof. Proved in Lean for all values: C10_idempotent (given nc idempotent): canonicalizing twice = once, because the result is sorted at every depth with fixed-point numbers and such values are fixed points; "
+                    "C10_member_order / C10_permutation: values equal up to permutation of object entries at ANY depth (the PermEq relation of C15) have identical canonical forms (a sorted permutation under a total antisymmetric order is unique); "
+                    "C10_preserves: null/bool/string untouched, arrays mapped item-wise in order, objects keep their size and multiset of keys. "
+                    "Hypotheses on the opaque number canonicalizer (idempotent; equal on numerically equal spellings) are tested with exact respellings (exponent shifts, trailing zeros, E/e/+). Whitespace/escape blindness is a property of parsing (C02) and is "
+                    "tested end-to-end (pretty print + \\u-escape rewriting + re-parse + canonicalize); key lookups after canonicalization are tested on every generated case and follow from C06_sort for the model."),
+        level_note="Trusted: as C09.",
+        rule="as C09; every I-JSON case is additionally canonicalized twice, deep-shuffled, respelled, re-escaped and queried by key on the real code",
+        strength="partial: structure/idempotence/permutation proved; number hypotheses and whitespace/escape clause tested",
+        trusted_base=COMMON_TRUST,
+        assumptions=["nc idempotent; nc equal on numerically equal spellings"],
+    ),
 }
